@@ -576,6 +576,14 @@ ScopeTable ==
                       !.max = [N |-> 1, L |-> 1, D |-> 5, P |-> 1, C |-> 1, I |-> 8, Q |-> 1, W |-> 2], !.parents = {}],
     naming |-> NamingScope("DEFAULT", {}),
     naming_edif |-> NamingScope("EDIF", {}),
+    \* policy adoption: an EDIF-policy netlist (library "a", cell "a" with port "a") and, built while the default was
+    \* DEFAULT, a stand-alone port, a stand-alone cell with a port of its own and a stand-alone instance; they are
+    \* added to the EDIF parents and then renamed / given identifiers (legal, illegal, case variants)
+    naming_adopt |-> [NamingScope("EDIF", {"add:DP", "add:LD", "add:DI"}) EXCEPT
+                      !.init = @ \o << Csetdefault("DEFAULT"), Cnew("P", "b"), Cnew("D", "b"), Ccreate("DP", 3, "a", 0),
+                                       Cnew("I", "b"), Cnew("P", "A") >>,
+                      !.ops = {"add:DP", "add:LD", "add:DI", "set_eid:P", "set_eid:D", "set_name:P", "set_name:D"},
+                      !.max = [N |-> 1, L |-> 1, D |-> 3, P |-> 5, C |-> 1, I |-> 3, Q |-> 0, W |-> 0]],
     \* a second library: its cells (a name that is free in the first library, and one that is taken there) are
     \* offered to the first library while they still belong to the second, and the other way round
     naming_two |-> [NamingScope("DEFAULT", {"add:DP", "new:C", "add:DC", "create:DC", "remove:DC", "set_name:C"}) EXCEPT
